@@ -114,6 +114,8 @@ def job(shard, nshards, seed, tier, exes, plan):
                 sh.violation("C18/seed/not-fixed-once", "%s of %s threads hashed the fixed key differently (at their first or second use) from the later value (simultaneous entrants %s)" % (res["hashes_differing_from_late"], res["threads"], res["simultaneous_entrants"]), dict(rep0, result=res))
             if int(res["keys_lost"]):
                 sh.violation("C18/seed/key-inserted-during-race-lost", "%s key(s) inserted during the first use of the hash cannot be found/deleted afterwards" % res["keys_lost"], dict(rep0, result=res))
+            if int(res["simultaneous_entrants"]) == 0:
+                sh.violation("C18/seed/never-drawn", "%s threads hashed keys but the seed source was never consulted: the default key hash is not seeded" % res["threads"], dict(rep0, result=res))
             sh.count("seed_trials")
             if int(res["simultaneous_entrants"]) >= 2:
                 sh.count("seed_trials_with_simultaneous_entrants")
